@@ -17,6 +17,7 @@ EXPLANATION = (
     "scalar functions, option coalescing."
     " (R5) inside the tail-call loop of execute_user_function only the loop-carried argument vector is read, never the initial call's arguments."
     ' (R7) both operands of every pattern/value zip in the matcher are plain forward iterators, and the suffix patterns are paired with the slice starting at len - suffix.len().'
+    ' (R8) each match arm / function arm is tried against its own scratch environment; (R9) every *NonExhaustive* error is skipped only under an `arms.any(matches!(arm.pattern, Pattern::Wildcard))` flag - no wider catch-all predicate.'
 )
 
 
